@@ -83,12 +83,15 @@ func (p *tlsConfigPool) LoadTLSConfig(config TLSConfig) (*tls.Config, error) {
 	encConfig := encodeConfig(config)
 	id := encConfig.hash()
 
+	// Hold the lock from the lookup until the new configuration is stored. Otherwise two concurrent
+	// first loads of the same settings both miss, both build a configuration and start a file
+	// watcher, and the caller that loses the final store keeps a configuration that is not in the
+	// pool and is never updated when the trusted CA file changes.
 	p.mu.Lock()
+	defer p.mu.Unlock()
 	if tlsConfig, ok := p.configs[id]; ok {
-		p.mu.Unlock()
 		return tlsConfig, nil
 	}
-	p.mu.Unlock()
 
 	log := p.log.With("id", id)
 	log.Info("loading new TLS config", "config", encConfig.JSON())
@@ -134,9 +137,7 @@ func (p *tlsConfigPool) LoadTLSConfig(config TLSConfig) (*tls.Config, error) {
 	}
 
 	// Save the TLS config to the pool
-	p.mu.Lock()
 	p.configs[id] = tlsConfig
-	p.mu.Unlock()
 	return tlsConfig, nil
 }
 
